@@ -1,4 +1,4 @@
 SPECIFICATION Spec
-CONSTANTS MaxDim = 2  Depth = 2  Emit = TRUE
+CONSTANTS MaxDim = 2  Depth = 2  FullInit = TRUE  Emit = TRUE
 INVARIANTS EmitCase
 CHECK_DEADLOCK FALSE
